@@ -161,6 +161,8 @@ def _hd_decision_table(rep, p, mod, fd, lp):
                                 contribs.append(('one', norm(x.elts[0])))
                                 names = None
                                 break
+                            elif isinstance(x, ast.List) and not x.elts:
+                                continue
                             else:
                                 okp = False
                         if not okp:
